@@ -776,6 +776,8 @@ class EngineTheory(Theory):
         sti.ghost['k%d' % n] = kk
 
         def preserve(st2):
+            if st2.flags.get('closing') and any(isinstance(x, (ast.Yield, ast.YieldFrom)) for y in s.body for x in ast.walk(y)):
+                ex.oblige(st2.fork().tag('preserve'), 'close.loop_continues_to_a_yield_after_GeneratorExit', 'false', 'safety')
             check(st2, '(+ %s 1)' % kk, 'preserve')
 
         kb = k.with_(normal=preserve, cont=preserve, brk=lambda st2: k.normal(st2.tag('loop%d.break' % n)))
@@ -861,6 +863,9 @@ class EngineTheory(Theory):
             raise OutOfSubset('yield in a %s' % c.kind, y)
         yn = ex.yield_ord[id(y)]
         st = st.tag('yield%d' % yn)
+        if st.flags.get('closing'):
+            ex.oblige(st, 'close.generator_ignored_GeneratorExit', 'false', 'safety')
+            return
         active = tuple(st.ghost.get('active', ()))
         ex.oblige(st, 'yield.discipline', self.q_formula(ex, st, active), 'post')
         mx = c.ghost.get('max_yields')
@@ -911,7 +916,10 @@ class EngineTheory(Theory):
                 return st3
             st2.yields += 0
             k.normal(fin(st2, 'exhausted'))
-            k.exc(fin(st2, 'close'), Exc('GeneratorExit'))
+            stc = fin(st2, 'close')
+            stc.flags = dict(stc.flags)
+            stc.flags['closing'] = True
+            k.exc(stc, Exc('GeneratorExit'))
             k.exc(fin(st2, 'throw'), Exc('Thrown'))
             k.exc(fin(st2, 'raises'), Exc('UserException'))
             k.exc(fin(st2, 'raises_recursion'), Exc('RecursionError'))
